@@ -128,6 +128,15 @@ def rand_case(rng, maxpix=36, dtype=None, allow_user=True, adj=None, scale=None)
             case['vals'] = [v - mn + lo for v in case['vals']]
         if dt == 'int8' and max(case['vals']) > 127:
             dt = 'int16'
+        hi = {'int8': 127, 'int16': 32767, 'int32': 2 ** 31 - 1, 'int64': 2 ** 63 - 1, 'uint8': 255, 'uint16': 65535,
+              'uint32': 2 ** 32 - 1}.get(dt)
+        if hi is not None and rng.random() < 0.3:
+            # spread the values over (almost) the whole range of the type: differences of two pixel values then do
+            # not fit the type itself
+            mn, mx = min(case['vals']), max(case['vals'])
+            if mx > mn:
+                k = (hi - lo) // (mx - mn)
+                case['vals'] = [lo + (v - mn) * k for v in case['vals']]
         case['dtype'] = dt
     rand_params(rng, case, allow_user)
     if case['dtype'] not in ('float64', 'float32') and case.get('minv') is not None and abs(case['minv']) < 2 ** 40 and rng.random() < 0.4:
